@@ -171,6 +171,19 @@ func postRun(script []string, w *bufio.Writer) {
 }
 
 func postDirect(seed uint64, tier string, args []string, w *bufio.Writer) {
+	// RunPending while other goroutines post and one more operation is in flight: it returns only when nothing is
+	rp := 3000
+	if tier == "thorough" {
+		rp = 30000
+	}
+	rpOK, rpWhy := postRunPending(rp, 4, 25)
+	if !rpOK {
+		fmt.Fprintf(w, "DIRECT-FAIL key=post.%s mode=runpending rounds=%d posters=4 per=25\n", rpWhy, rp)
+	}
+	if len(args) > 0 && args[0] == "only=runpending" {
+		fmt.Fprintf(w, "DIRECT-STAT {\"post_runpending_rounds\": %d, \"post_runpending_ok\": %v}\n", rp, rpOK)
+		return
+	}
 	rounds, posters, per := 30, 8, 200
 	if tier == "thorough" {
 		rounds, posters, per = 200, 16, 400
@@ -425,6 +438,76 @@ func postPingPong(posters, per int) (bool, string) {
 	case why := <-result:
 		return why == "", why
 	case <-time.After(120 * time.Second):
+		return false, "loop-deadlocked"
+	}
+}
+
+// postRunPending: per round a timer is armed for an hour (one operation in flight), `posters` goroutines post `per`
+// handlers each, and the handler posted last — after all others were posted — closes the timer. The loop goroutine runs
+// RunPending: it must not return while the timer is armed or a posted handler has not run.
+func postRunPending(rounds, posters, per int) (bool, string) {
+	result := make(chan string, 1)
+	go func() {
+		runtime.LockOSThread()
+		defer runtime.UnlockOSThread()
+		ioc, err := sonic.NewIO()
+		if err != nil {
+			result <- "newio"
+			return
+		}
+		defer ioc.Close()
+		for round := 0; round < rounds; round++ {
+			t, err := sonic.NewTimer(ioc)
+			if err != nil {
+				result <- "newtimer"
+				return
+			}
+			if err := t.ScheduleOnce(time.Hour, func() {}); err != nil {
+				result <- "schedule"
+				return
+			}
+			ran, closed := 0, false // loop goroutine only
+			var wg sync.WaitGroup
+			for g := 0; g < posters; g++ {
+				wg.Add(1)
+				go func() {
+					defer wg.Done()
+					for i := 0; i < per; i++ {
+						_ = ioc.Post(func() { ran++ })
+					}
+				}()
+			}
+			go func() {
+				wg.Wait()
+				_ = ioc.Post(func() { closed = true; _ = t.Close() })
+			}()
+			if err := ioc.RunPending(); err != nil {
+				result <- "loop-error"
+				return
+			}
+			if !closed {
+				// let the posters finish before the verdict is sent (they use ioc)
+				for i := 0; i < 2000 && !closed; i++ {
+					_ = ioc.RunOneFor(time.Millisecond)
+				}
+				result <- "runpending-returned-with-operations-in-flight"
+				return
+			}
+			if ran != posters*per {
+				result <- "runpending-returned-with-posted-handlers-not-run"
+				return
+			}
+			if ioc.Pending() != 0 || ioc.Posted() != 0 {
+				result <- "pending-or-posted-not-zero-at-quiescence"
+				return
+			}
+		}
+		result <- ""
+	}()
+	select {
+	case why := <-result:
+		return why == "", why
+	case <-time.After(300 * time.Second):
 		return false, "loop-deadlocked"
 	}
 }
